@@ -134,3 +134,26 @@ def sum_congruence(c, a, b):
 
 
 sum_congruence.runtime_domain = lambda quick: [(a, b) for a in ((), (1,), (2, -3), (0, 4, 4)) for b in ((), (1,), (2, -3), (2, 5), (0, 4, 4), (0, 4, 5)) if len(a) == len(b)]
+
+
+# ASCENDING-RUN START: the recursively defined lo(j) (c.rec_asc_lo: lo(0) = 0, lo(j+1) = lo(j) if t[j] < t[j+1] else j+1)
+# IS the start of the maximal ascending run ending at j: 0 <= lo(j) <= j, the entries ascend from lo(j) to j, and the
+# run cannot be extended to the left (lo(j) = 0 or a non-ascent just before it).  This is what makes "j - lo(j) + 1"
+# in the contract of Perm.longestruns_ascending the length of the maximal ascending run ending at j.
+@lemma("ascending_run_start", {"t": "Seq"}, props=P11)
+def ascending_run_start(c, t):
+    n = c.len(t)
+    sym = c.mode == "sym"
+
+    def left(i):
+        def per(j):
+            lo = c.rec_asc_lo(t, j)
+            return c.and_(lo >= 0, lo <= j, c.or_(lo == 0, lambda: c.not_(t[lo - 1] < t[lo])),
+                          c.forall(lo, j, lambda x: t[x] < t[x + 1], pattern=(lambda x: t[x]) if sym else None))
+
+        return c.forall(0, c.int(i) + 1, lambda j: c.implies(j < n, lambda: per(j)), pattern=(lambda j: c.rec_asc_lo(t, j)) if sym else None)
+
+    return [("asc_left", 0, n - 1, left, ())]
+
+
+ascending_run_start.runtime_domain = prefix_argmax_exists.runtime_domain
